@@ -34,6 +34,13 @@ def run(ctx):
             jobs.append('bkf%ds%d/-/P;;%s,%s,%s' % (k, s, fill, drain, fill))
     for k in (1, 2, 3, 5):
         jobs.append('kf%d/hp3/P;;%s,%s' % (k, ','.join('push%d' % i for i in range(1, 2 * k + 3)), ','.join(['pop'] * (2 * k + 3))))
+    # a ring that looks full while its head segment has been popped PARTIALLY: the next push must be rejected or go elsewhere - never may the head move
+    # past a segment that still holds values (they would be overtaken by every later push: seeded change c06_5, segment_empty as any_of)
+    for k, sg in ((2, 2), (3, 2), (2, 3), (3, 3)):
+        n = k * sg
+        for j in range(1, k):
+            jobs.append('bkf%ds%d/-/P;;%s,%s,push%d,push%d,%s' % (k, sg, ','.join('push%d' % i for i in range(1, n + 1)), ','.join(['pop'] * j), n + 1, n + 2,
+                                                                   ','.join(['pop'] * (n + 2))))
     run_queues(ctx, jobs, pb=2 if q else 3, max_exec=400 if q else 20000)
     if not q:
         run_queues(ctx, jobs, pb=5, max_exec=0, mode='random', runs=800, tagx='r')
